@@ -244,62 +244,165 @@ def check_oracle(case, mat, status, out, tol=0.0):
 # ------------------------------------------------------------------------------------------------
 # observable entry points built on expand_operator
 # ------------------------------------------------------------------------------------------------
+ONE_Q = ["X", "RX"]
+TWO_Q = ["CNOT", "SWAP", "CSIGN"]          # CNOT is not symmetric: the order of controls + targets matters
+THREE_Q = ["TOFFOLI", "FREDKIN"]
+
+
+def _make_gate(e):
+    from qutip_qip import operations as ops
+    cls = getattr(ops, e["gate"])
+    kw = {}
+    if e.get("controls") is not None:
+        kw["controls"] = list(e["controls"])
+    if e.get("arg") is not None:
+        kw["arg_value"] = e["arg"]
+    return cls(targets=list(e["targets"]), **kw)
+
+
+def entry_calls(case):
+    """the sequence of calls of an entry case, each as a dict {dims:[..]} | {num_qubits:n} | {} | {int_dims:n}"""
+    e = case["entry"]
+    if "calls" in e:
+        return list(e["calls"])
+    via = e["via"]
+    if via == "gate-num-qubits":
+        return [dict(num_qubits=len(case["dims"]))]
+    if via == "gate-default":
+        return [dict()]
+    if via == "pulse" and e.get("int_dims"):
+        return [dict(int_dims=len(case["dims"]))]
+    return [dict(dims=list(case["dims"]))]
+
+
+def _call_dims(call, qubits):
+    if "dims" in call:
+        return list(call["dims"])
+    if "num_qubits" in call:
+        return [2] * call["num_qubits"]
+    if "int_dims" in call:
+        return [2] * call["int_dims"]
+    return [2] * (max(qubits) + 1)
+
+
 def run_entry(case):
-    """returns (status, out, mat, ts, dims)"""
+    """runs all calls of the case ON ONE OBJECT; returns list of (call, status, out, mat, ts, dims)"""
     import qutip
     e = case["entry"]
-    dims = list(case["dims"])
+    via = e["via"]
+    res = []
     with warnings.catch_warnings():
         warnings.simplefilter("ignore")
-        if e["via"] in ("gate", "gate-num-qubits", "gate-default"):
-            from qutip_qip import operations as ops
-            cls = getattr(ops, e["gate"])
-            kw = {}
-            if e.get("controls") is not None:
-                kw["controls"] = e["controls"]
-            if e.get("arg") is not None:
-                kw["arg_value"] = e["arg"]
-            g = cls(targets=e["targets"], **kw)
+        if via.startswith("gate"):
+            g = _make_gate(e)
             mat = g.get_compact_qobj().full()
-            ts = list(g.get_all_qubits())
-            try:
-                if e["via"] == "gate":
-                    out = g.get_qobj(dims=dims)
-                elif e["via"] == "gate-num-qubits":
-                    out = g.get_qobj(num_qubits=len(dims))
-                else:
-                    out = g.get_qobj()
-            except Exception as ex:
-                return "rejected", type(ex).__name__, mat, ts, dims
-            return "ok", out, mat, ts, dims
-        if e["via"] == "pulse":
+            ts = [int(q) for q in g.get_all_qubits()]
+            for call in entry_calls(case):
+                dims = _call_dims(call, ts)
+                try:
+                    if "dims" in call and "num_qubits" in call:
+                        out = g.get_qobj(num_qubits=call["num_qubits"], dims=list(call["dims"]))
+                    elif "dims" in call:
+                        out = g.get_qobj(dims=list(call["dims"]))
+                    elif "num_qubits" in call:
+                        out = g.get_qobj(num_qubits=call["num_qubits"])
+                    else:
+                        out = g.get_qobj()
+                    res.append((call, "ok", out, mat, ts, dims))
+                except Exception as ex:
+                    res.append((call, "rejected", type(ex).__name__, mat, ts, dims))
+            return res
+        if via.startswith("pulse"):
             from qutip_qip.pulse import Pulse
-            ts = list(e["targets"])
-            odims = [dims[t] for t in ts]
+            if via == "pulse-none":
+                p = Pulse(None, None)
+                for call in entry_calls(case):
+                    dims = _call_dims(call, [0])
+                    mat = np.zeros((dims[0], dims[0]), dtype=complex)
+                    try:
+                        res.append((call, "ok", p.get_ideal_qobj(call.get("int_dims", dims)), mat, [0], dims))
+                    except Exception as ex:
+                        res.append((call, "rejected", type(ex).__name__, mat, [0], dims))
+                return res
+            ts = [int(t) for t in e["targets"]]
+            odims = list(e["odims"]) if "odims" in e else [case["dims"][t] for t in ts]
             mat = coded_matrix(odims, odims)
             p = Pulse(qutip.Qobj(mat, dims=[odims, odims]), ts if not e.get("scalar") else ts[0])
-            try:
-                out = p.get_ideal_qobj(dims)
-            except Exception as ex:
-                return "rejected", type(ex).__name__, mat, ts, dims
-            return "ok", out, mat, ts, dims
+            for call in entry_calls(case):
+                dims = _call_dims(call, ts)
+                try:
+                    res.append((call, "ok", p.get_ideal_qobj(call.get("int_dims", dims)), mat, ts, dims))
+                except Exception as ex:
+                    res.append((call, "rejected", type(ex).__name__, mat, ts, dims))
+            return res
     raise Broken("harness:entry", "unknown entry " + str(e))
 
 
-def check_entry(case):
-    status, out, mat, ts, dims = run_entry(case)
-    if status != "ok":
-        return ("rejected: " + str(out), "accepted", "entry point rejects a valid embedding request: " + case["entry"]["via"])
-    if out.dims != [dims, dims]:
-        return (str(out.dims), str([dims, dims]), "entry point result has wrong dims: " + case["entry"]["via"])
-    E = out.full()
-    X = oracle_matrix(mat, dims, ts)
-    bad = np.argwhere(np.abs(E - X) > 1e-12) if E.shape == X.shape else [(0, 0)]
-    if len(bad):
-        i, j = (int(v) for v in bad[0])
-        return (f"entry ({i},{j})", "op(target digits) x delta(other digits)",
-                "entry point embeds wrongly: " + case["entry"]["via"])
-    return None
+def _entry_input(case, idx=None, call=None):
+    inp = dict(kind="entry", dims=case.get("dims"), entry=case["entry"])
+    if idx is not None:
+        inp["failing_call"] = idx
+        inp["call"] = call
+    return inp
+
+
+def check_entry(case, model_maps=None, corr=None):
+    """property oracle on every call of the case; with model_maps ({key: cells}) also the model's entry map.
+    Returns the first oracle failure (observed, expected, what, idx, call) or None."""
+    first = None
+    via = case["entry"]["via"]
+    for idx, (call, status, out, mat, ts, dims) in enumerate(run_entry(case)):
+        f = None
+        if status != "ok":
+            f = ("rejected: " + str(out), "accepted", "entry point rejects a valid embedding request: " + via)
+        elif out.dims != [dims, dims]:
+            f = (str(out.dims), str([dims, dims]), "entry point result has wrong dims: " + via)
+        else:
+            E = out.full()
+            X = oracle_matrix(mat, dims, ts)
+            if E.shape != X.shape or np.abs(E - X).max() > 1e-12:
+                bad = np.argwhere(np.abs(E - X) > 1e-12) if E.shape == X.shape else [(0, 0)]
+                i, j = (int(v) for v in bad[0])
+                f = (f"call {idx} {call}: entry ({i},{j}) = {complex(E[i, j]) if E.shape == X.shape else E.shape}",
+                     f"{complex(X[i, j])}" if E.shape == X.shape else str(X.shape),
+                     "entry point embeds wrongly: " + via + (" (call %d on the same object)" % idx if idx else ""))
+            if model_maps is not None and corr is not None:
+                odims = [dims[t] for t in ts]
+                key = _model_key(dict(dims=dims, orow=odims, ocol=odims, targets=ts))
+                cells = model_maps.get(key)
+                if cells is None:
+                    corr.disagree(_entry_input(case, idx, call), "accepted" if status == "ok" else status, "Error",
+                                  "entry point: model rejects the underlying expand_operator call")
+                else:
+                    D = _prod(dims)
+                    C = _prod(odims)
+                    M = C * C + 1
+                    X3 = np.zeros(D * D, dtype=complex)
+                    if len(cells):
+                        cells = np.asarray(cells, dtype=np.int64)
+                        X3[cells // M] = mat.ravel()[cells % M - 1]
+                    X3 = X3.reshape(D, D)
+                    if E.shape != X3.shape or np.abs(E - X3).max() > 1e-12:
+                        corr.disagree(_entry_input(case, idx, call), "matrix of the entry point",
+                                      "model entry map applied to the compact operator",
+                                      "entry point result differs from the model's entry map: " + via)
+        if f and first is None:
+            first = (f[0], f[1], f[2], idx, call)
+    return first
+
+
+def _dims_with(N, fixed, rng=None, choices=(2, 3, 4)):
+    """all (rng None) or one random dims vector of length N with the positions in `fixed` equal to 2"""
+    free = [i for i in range(N) if i not in fixed]
+    if rng is not None:
+        return [[2 if i in fixed else rng.choice(choices) for i in range(N)]]
+    out = []
+    for combo in itertools.product(choices, repeat=len(free)):
+        d = [2] * N
+        for i, v in zip(free, combo):
+            d[i] = v
+        out.append(d)
+    return out
 
 
 def entry_cases(ctx):
@@ -307,28 +410,130 @@ def entry_cases(ctx):
     cases = []
 
     def add(dims, **e):
-        cases.append(dict(kind="entry", dims=dims, entry=e))
-    add([2, 2, 2], via="gate", gate="CNOT", controls=[2], targets=[0])
-    add([2, 3, 2], via="gate", gate="CNOT", controls=[2], targets=[0])
-    add([3, 2, 2, 2], via="gate", gate="TOFFOLI", controls=[3, 1], targets=[2])
-    add([2, 2, 4, 2], via="gate", gate="SWAP", targets=[3, 0])
-    add([4, 2, 3], via="gate", gate="RX", targets=[1], arg=0.5)
-    add([2, 2, 2], via="gate", gate="FREDKIN", controls=[1], targets=[2, 0])
+        cases.append(dict(kind="entry", dims=list(dims) if dims is not None else None, entry=e))
+
+    # ---- Pulse.get_ideal_qobj(dims): every dims vector over {2,3,4}^<=3 and every injective target tuple,
+    #      INCLUDING operators on all subsystems with non-ascending targets
+    for N in (1, 2, 3):
+        for dims in itertools.product([2, 3, 4], repeat=N):
+            for k in range(1, N + 1):
+                for ts in itertools.permutations(range(N), k):
+                    add(dims, via="pulse", targets=list(ts), scalar=(k == 1 and rng.random() < 0.5),
+                        int_dims=(all(d == 2 for d in dims) and rng.random() < 0.5))
+    for dims in ([2, 2, 2, 2], [2, 3, 3, 2], [3, 2, 2, 3], [2, 4, 4, 2], [3, 3, 3, 3], [2, 3, 2, 3], [2, 2, 3, 3]):
+        perms = list(itertools.permutations(range(4), 4))
+        for ts in (perms if ctx.thorough else rng.sample(perms, 8) + [(3, 2, 1, 0)]):
+            add(dims, via="pulse", targets=list(ts))
+        for k in (2, 3):
+            sub = list(itertools.permutations(range(4), k))
+            for ts in (sub if ctx.thorough else rng.sample(sub, 4)):
+                add(dims, via="pulse", targets=list(ts))
+    for dims in ([2], [3, 2], [4, 3, 2]):
+        add(dims, via="pulse-none")
+    # ---- Gate.get_qobj(dims=...): every placement of 1/2/3-qubit gates on <= 4 subsystems, the other
+    #      subsystems over {2,3,4} (all of them for N <= 3, sampled for N = 4 in quick)
+    for N in (1, 2, 3, 4):
+        for k, names in ((1, ONE_Q), (2, TWO_Q), (3, THREE_Q)):
+            if k > N:
+                continue
+            for qs in itertools.permutations(range(N), k):
+                dlist = _dims_with(N, qs) if (N <= 3 or ctx.thorough) else _dims_with(N, qs, rng) + [[2] * N]
+                for dims in dlist:
+                    for name in names:
+                        if k == 1:
+                            add(dims, via="gate", gate=name, targets=[qs[0]], arg=(0.5 if name == "RX" else None))
+                        elif name == "SWAP":
+                            add(dims, via="gate", gate=name, targets=list(qs))
+                        elif k == 2:
+                            add(dims, via="gate", gate=name, controls=[qs[0]], targets=[qs[1]])
+                        elif name == "TOFFOLI":
+                            add(dims, via="gate", gate=name, controls=[qs[0], qs[1]], targets=[qs[2]])
+                        else:
+                            add(dims, via="gate", gate=name, controls=[qs[0]], targets=[qs[1], qs[2]])
     add([2, 2, 2], via="gate-num-qubits", gate="CNOT", controls=[2], targets=[0])
     add([2, 2], via="gate-default", gate="CNOT", controls=[1], targets=[0])
     add([2, 2, 2], via="gate-num-qubits", gate="RX", targets=[1], arg=0.25)
-    for _ in range(ctx.n(12, 60)):
-        N = rng.randint(2, 4)
-        q = rng.sample(range(N), 2)
-        dims = [2 if i in q else rng.choice([2, 3, 4]) for i in range(N)]
-        add(dims, via="gate", gate=rng.choice(["CNOT", "CSIGN"]), controls=[q[0]], targets=[q[1]])
-    for _ in range(ctx.n(12, 60)):
-        N = rng.randint(1, 4)
-        dims = [rng.choice([2, 3, 4]) for _ in range(N)]
-        k = rng.randint(1, min(N, 3))
-        ts = rng.sample(range(N), k)
-        add(dims, via="pulse", targets=ts, scalar=(k == 1 and rng.random() < 0.5))
+    # ---- histories: ONE Gate / Pulse object asked 2-3 times with different dims / num_qubits
+    fixed_hist = [
+        dict(via="gate-history", gate="CNOT", controls=[1], targets=[0],
+             calls=[dict(dims=[2, 2, 2]), dict(dims=[2, 2, 3]), dict(dims=[2, 2])]),
+        dict(via="gate-history", gate="X", targets=[0], calls=[dict(dims=[2, 3]), dict(dims=[2, 4]), dict(dims=[2, 3])]),
+        dict(via="gate-history", gate="CNOT", controls=[0], targets=[1],
+             calls=[dict(num_qubits=2), dict(num_qubits=3), dict(dims=[2, 2, 4])]),
+        dict(via="gate-history", gate="CNOT", controls=[1], targets=[0],
+             calls=[dict(num_qubits=3), dict(num_qubits=3, dims=[2, 2, 3]), dict()]),
+        dict(via="gate-history", gate="RX", targets=[1], arg=0.5,
+             calls=[dict(dims=[3, 2]), dict(dims=[4, 2]), dict(dims=[3, 2, 2])]),
+        dict(via="pulse-history", targets=[1, 0], odims=[2, 2],
+             calls=[dict(dims=[2, 2, 2]), dict(dims=[2, 2]), dict(dims=[2, 2, 3]), dict(int_dims=3)]),
+        dict(via="pulse-history", targets=[2, 0], odims=[2, 3],
+             calls=[dict(dims=[3, 2, 2]), dict(dims=[3, 4, 2]), dict(dims=[3, 2, 2, 2])]),
+    ]
+    for e in fixed_hist:
+        cases.append(dict(kind="entry", dims=None, entry=e))
+    for _ in range(ctx.n(60, 400)):
+        k = rng.choice([1, 1, 2, 2, 3])
+        top = rng.randint(k, 4)
+        qs = rng.sample(range(top), k)
+        name = rng.choice({1: ONE_Q, 2: TWO_Q, 3: THREE_Q}[k])
+        e = dict(via="gate-history", gate=name)
+        if k == 1:
+            e.update(targets=[qs[0]], arg=(0.5 if name == "RX" else None))
+        elif name == "SWAP":
+            e.update(targets=qs)
+        elif k == 2:
+            e.update(controls=[qs[0]], targets=[qs[1]])
+        elif name == "TOFFOLI":
+            e.update(controls=qs[:2], targets=[qs[2]])
+        else:
+            e.update(controls=[qs[0]], targets=qs[1:])
+        calls = []
+        for _j in range(rng.randint(2, 3)):
+            N = rng.randint(max(qs) + 1, 4)
+            r = rng.random()
+            if r < 0.7:
+                calls.append(dict(dims=_dims_with(N, qs, rng)[0]))
+            elif r < 0.9:
+                calls.append(dict(num_qubits=N))
+            else:
+                calls.append(dict(num_qubits=N, dims=_dims_with(N, qs, rng)[0]))
+        e["calls"] = calls
+        cases.append(dict(kind="entry", dims=None, entry=e))
+    for _ in range(ctx.n(40, 300)):
+        k = rng.randint(1, 3)
+        top = rng.randint(k, 4)
+        ts = rng.sample(range(top), k)
+        odims = [rng.choice([2, 3, 4]) for _ in ts]
+        calls = []
+        for _j in range(rng.randint(2, 3)):
+            N = rng.randint(max(ts) + 1, 4)
+            d = [rng.choice([2, 3, 4]) for _ in range(N)]
+            for t, od in zip(ts, odims):
+                d[t] = od
+            calls.append(dict(dims=d))
+        cases.append(dict(kind="entry", dims=None, entry=dict(via="pulse-history", targets=ts, odims=odims, calls=calls)))
     return cases
+
+
+def entry_model_cases(case):
+    """the expand_operator calls (as model cases) underlying the calls of an entry case"""
+    e = case["entry"]
+    out = []
+    if e["via"] == "pulse-none":
+        for call in entry_calls(case):
+            dims = _call_dims(call, [0])
+            out.append(dict(dims=dims, orow=[dims[0]], ocol=[dims[0]], targets=[0]))
+        return out
+    if e["via"].startswith("gate"):
+        ts = [int(q) for q in (e.get("controls") or [])] + [int(q) for q in e["targets"]]
+    else:
+        ts = [int(t) for t in e["targets"]]
+    for call in entry_calls(case):
+        dims = _call_dims(call, ts)
+        if all(0 <= t < len(dims) for t in ts):
+            od = [dims[t] for t in ts]
+            out.append(dict(dims=dims, orow=od, ocol=list(od), targets=list(ts)))
+    return out
 
 
 # ------------------------------------------------------------------------------------------------
